@@ -174,6 +174,21 @@ def summarize(body, blocks, end, env0=None, named_only=True, mk=False):
                 res = ('len', strip_ref(args[0]))
             elif fn in IS_EMPTY_FNS and len(args) == 1:
                 res = ('is_empty', strip_ref(args[0]))
+            elif fn and fn.startswith('<core::option::Option<T> as core::ops::FromResidual<') and fn.endswith('::from_residual'):
+                res = ('agg', 'core::option::Option::None', ())
+            elif fn in ('core::mem::replace', 'core::mem::take', 'core::option::Option::<T>::take', 'core::option::Option::<T>::replace') and args and \
+                    args[0][0] == 'ref':
+                # the old value is the result, the place gets the new one: a load and a store of the place
+                res = args[0][1]
+                if fn == 'core::mem::take':
+                    newv = ('default',)
+                elif fn.endswith('::take'):
+                    newv = ('agg', 'core::option::Option::None', ())
+                elif fn.endswith('Option::<T>::replace'):
+                    newv = ('agg', 'core::option::Option::Some', (args[1],))
+                else:
+                    newv = args[1]
+                p.events.append(('store', args[0][1], newv, bi))
             else:
                 res = ('call', fn, args, bi)
                 p.events.append(('call', fn, args, bi, tuple(t['call'].get('generic') or ())))
@@ -198,6 +213,7 @@ def summarize(body, blocks, end, env0=None, named_only=True, mk=False):
                     v = tuple(sorted(str(variant_of_edge(body, bi, l_)) for l_ in lab))
                 else:
                     v = variant_of_edge(body, bi, lab)
+                scrut, v = untry(scrut, v)
                 p.events.append(('cond', ('variant', scrut), v, bi))
             elif t.get('sty') == 'bool':
                 p.events.append(('cond', cond, bool_truth(body, bi, lab) if not isinstance(lab, tuple) else None, bi))
